@@ -5,5 +5,6 @@ CONSTANTS
   MaxClock = 100000000
   Js = {1}
   Ks = {1}
+  Crashes = FALSE
 POSTCONDITION TraceAccepted
 CHECK_DEADLOCK FALSE
